@@ -1,4 +1,5 @@
 import GixModel.Lemmas.C26Append
+import GixModel.Lemmas.C26Append2
 import GixModel.Lemmas.C28Body
 /-
 C28 — what `load` reads back from a written file, in terms of the view; used for
@@ -43,14 +44,15 @@ view (headers and entries per section) and the same comments per section. -/
 theorem reparse_edited (f : FileS)
     (hs : fileFromBytes (render f.toFile.events) = some f.toFile)
     (hbom : noBomHead (render f.toFile.events) = true) (hcr : (render f.toFile.events).getLast? ≠ some 13)
-    (hv : ∃ e, f.toFile.events.getLast? = some e ∧ isValueEnd e = true)
-    (hfin : f.toFile.normal = true ∨ f.toFile.aug = f.toFile.events ++ [.newline (detectNewline f.toFile)]) :
+    (hfin : f.toFile.normal = true ∨
+      (f.toFile.aug = f.toFile.events ++ [.newline (detectNewline f.toFile)] ∧
+        ∃ e, f.toFile.events.getLast? = some e ∧ (isValueEnd e = true ∨ evIsWs e = true ∨ isHeaderEv e = true))) :
     ∃ g, load f.write = some g ∧ g.view = f.view ∧ g.comments = f.comments := by
   have hview : f.view = f.toFile.sections.map (fun s => (s.header, bodyEntries s.header s.body none [])) := by
     simp [FileS.view, FileS.toFile, Sec.entries, List.map_map, Function.comp_def]
   have hcom : f.comments = f.toFile.sections.map (fun s => commentsOf s.body) := by
     simp [FileS.comments, FileS.toFile, List.map_map, Function.comp_def]
-  rcases hfin with hn | ha
+  rcases hfin with hn | ⟨ha, e, hle, hv⟩
   · have hw : f.write = render f.toFile.events := by
       unfold FileS.write
       have : f.toFile.aug = f.toFile.events := by simpa [File.normal] using hn
@@ -63,7 +65,19 @@ theorem reparse_edited (f : FileS)
   · have hw : f.write = render f.toFile.events ++ detectNewline f.toFile := by
       unfold FileS.write
       rw [File.write_eq, ha, render_snoc_nl]
-    have hF := fileFromBytes_app_eq (detectNewline_NL f.toFile) hs hbom hcr hv
+    have hsec : f.toFile.sections ≠ [] := by
+      intro hs0
+      have := aug_no_sections f.toFile hs0
+      rw [this] at ha
+      have := congrArg List.length ha
+      simp at this
+    have hlo : LastOk f.toFile.events := by
+      refine ⟨e, hle, ?_⟩
+      rcases hv with hv | hv | hv
+      · exact Or.inl (by simp [isGoodEnd, hv])
+      · exact Or.inl (by simp [isGoodEnd, hv])
+      · exact Or.inr hv
+    have hF := fileFromBytes_app_eq2 (detectNewline_NL f.toFile) hs hbom hcr hsec hlo
     have hl : load f.write = (fileFromBytes f.write).map _ := rfl
     rw [hw, hF] at hl
     refine ⟨_, by rw [hw]; exact hl, ?_⟩
